@@ -4,6 +4,7 @@ CFG = dict(
     model="c15",
     axioms=[],
     uses_gen=False,
+    ocaml_pkgs="zarith,unix",
     rule=(
         "clustering: point clouds of 0..=300 points (quick) / up to 2000 (thorough) from one SplitMix64 stream: "
         "uniform clouds in (and beyond) the drift volume r in [0.1092, 0.182] m, dense blobs, 1-4 helical tracks "
